@@ -28,12 +28,19 @@ def parse_case(case):
             continue
         place = 0 if t[0] == "c" else int(t[0][1:]) + 1
         fl = []
+        sl = []
         for a in t[1:]:
+            ranks = []
+            if "@" in a:
+                a, rk = a.split("@", 1)
+                ranks = [int(ch) for ch in rk]
+            sl.append(ranks)
             po = a.endswith("p")
             if po:
                 a = a[:-1]
             fl.append((int(a[:-1]), a[-1], po))
         tasks.append((place, fl))
+        h.setdefault("succ", []).append(sl)
     return h, tasks
 
 
@@ -52,14 +59,32 @@ def reference(h, tasks):
     return ins_all, mems
 
 
-def task_txt(t):
+def task_txt(t, succ=None):
     place, fl = t
-    return ("c" if place == 0 else "g%d" % (place - 1)) + "".join(" %d%s%s" % (d, mo, "p" if po else "") for d, mo, po in fl)
+    out = "c" if place == 0 else "g%d" % (place - 1)
+    for j, (d, mo, po) in enumerate(fl):
+        out += " %d%s%s" % (d, mo, "p" if po else "")
+        if succ and j < len(succ) and succ[j]:
+            out += "@" + "".join(str(r) for r in succ[j])
+    return out
 
 
-def case_txt(h, tasks):
-    return "gpu %s %d %d %d %d %d %d | %s" % (h["mode"], h["ngpu"], h["cap"], h["nd"], h["delay"], h["batch"],
-                                           h["direct"], " ; ".join(task_txt(t) for t in tasks))
+def case_txt(h, tasks, succ=None):
+    """succ: per task, per flow, the ranks of the successors of the flow (ptg mode)"""
+    return "gpu %s %d %d %d %d %d %d | %s" % (h["mode"], h["ngpu"], h["cap"], h["nd"], h["delay"], h["batch"], h["direct"],
+                                           " ; ".join(task_txt(t, succ[k] if succ else None) for k, t in enumerate(tasks)))
+
+
+def effective(h, tasks):
+    """the tasks with the pushout the runtime must add by itself: a written flow with a successor on another rank
+    (parsec_gpu_task_update_pushout; MPI does not send from device memory)"""
+    succ = h.get("succ") or []
+    out = []
+    for k, (place, fl) in enumerate(tasks):
+        sl = succ[k] if k < len(succ) else []
+        out.append((place, [(d, mo, po or (mo != "r" and j < len(sl) and any(r != 0 for r in sl[j])))
+                            for j, (d, mo, po) in enumerate(fl)]))
+    return out
 
 
 def outside_contract(h, tasks):
@@ -104,7 +129,8 @@ class C43(Check):
     id = "C43"
     prop_file = "theories/Properties/Properties_C43.v"
     theorems = ("C43_eviction_victim_idle_clean", "C43_reserve_spares_busy_and_dirty", "C43_capacity_respected",
-                "C43_stage_in_moves_source_value", "C43_reads_see_last_writer_refuted", "C43_newest_version_kept_refuted",
+                "C43_stage_in_moves_source_value", "C43_pushout_decision", "C43_remote_successor_served_from_newest",
+                "C43_reads_see_last_writer_refuted", "C43_newest_version_kept_refuted",
                 "C43_stage_in_source_newest_refuted", "C43_reads_refuted_stale_shared", "C43_reads_refuted_cpu_direct")
     comp = "gpu"
     extract_file = "theories/Extract/Extract_GPU.v"
@@ -119,7 +145,10 @@ class C43(Check):
         "dirty LRU lists, reader counts and memory contents. PROVED for every state, task, capacity and number of devices: the "
         "reservation pass evicts only copies popped from the clean list, with no reader, that no earlier flow of the running task "
         "names; copies with readers, copies outside the clean list (dirty list, copies held by running tasks) and the copies of "
-        "all flows of the task survive it; for every task sequence no device ever holds more copies than its zone has tiles. "
+        "all flows of the task survive it; for every task sequence no device ever holds more copies than its zone has tiles; "
+        "the post-kernel walk of parsec_gpu_task_update_pushout sets the pushout bit of a written flow iff some successor is on "
+        "another rank (every successor list, every enumeration order), and kernel_pop + epilog then leave the host copy with the "
+        "version and content of the device copy. "
         "REFUTED in the faithful model, each witness replayed on the real code (5 finding classes): 'reads see the last writer', "
         "'the stage-in source holds the newest version', 'the newest version is never lost'. No positive theorem on values: the "
         "'through the host' discipline under which the unchanged code is right (GPUSpec.through_host) is exercised by the "
@@ -317,6 +346,37 @@ class C43(Check):
         h = {"mode": "ptg", "ngpu": 2, "cap": cap, "nd": nd, "delay": r.pick([0, 0, 2]), "batch": 1, "direct": 0}
         return case_txt(h, tasks)
 
+    def gen_succ(self, r):
+        """'ptg' mode, the post-kernel decision of parsec_gpu_task_update_pushout: written flows carry 0-3 successors with
+        ranks in every order of local (0) / remote (1, 2); several written flows per task, some already marked PUSHOUT.
+        Every tile lives on one device and all tiles of a device fit in its memory (no eviction: the known classes
+        stale-owner-restage / stale-shared-copy cannot interfere); every tile is finally pushed out."""
+        ngpu = r.pick([1, 1, 2])
+        nd = r.range(2, 5)
+        home = [1 + r.below(ngpu) for _ in range(nd)]
+        cap = max(2, max(home.count(g) for g in (1, 2)) + r.below(2))
+        lists = [[], [0], [1], [2], [0, 0], [0, 1], [1, 0], [1, 1], [0, 2], [2, 0], [0, 0, 1], [0, 0, 2], [0, 1, 0], [1, 0, 0],
+                 [0, 1, 2], [2, 0, 1], [0, 0, 0], [1, 2, 0]]
+        tasks, succ = [], []
+        for _ in range(r.range(5, 18)):
+            g = 1 + r.below(ngpu)
+            mine = [d for d in range(nd) if home[d] == g]
+            if not mine:
+                continue
+            ds = r.shuffle(mine)[:r.range(1, min(3, len(mine)))]
+            fl, sl = [], []
+            for d in ds:
+                mo = r.pick(["r", "x", "x", "w"])
+                fl.append((d, mo, mo != "r" and r.chance(1, 7)))
+                sl.append(r.pick(lists) if mo != "r" else [])
+            tasks.append((g, fl))
+            succ.append(sl)
+        for d in range(nd):
+            tasks.append((home[d], [(d, "x", True)]))
+            succ.append([[]])
+        h = {"mode": "ptg", "ngpu": 2, "cap": cap, "nd": nd, "delay": r.pick([0, 0, 2]), "batch": 1, "direct": 0}
+        return case_txt(h, tasks, succ)
+
     def cases(self):
         r = self.rng
         q = self.tier == "quick"
@@ -329,6 +389,8 @@ class C43(Check):
             out.append(self.gen_wild(r))
         for _ in range(30 if q else 400):
             out.append(self.gen_d2d(r))
+        for _ in range(40 if q else 500):
+            out.append(self.gen_succ(r))
         return out
 
     def nontrivial_key(self, case):
@@ -344,6 +406,9 @@ class C43(Check):
                     per_dev.setdefault(place, set()).add(d)
         if not per_dev:
             return None
+        if any(mo != "r" and any(x != 0 for x in rk)
+               for (pl, fl), sl in zip(tasks, h.get("succ") or []) for (d, mo, po), rk in zip(fl, sl)):
+            return case                      # a written flow with a successor on another rank: pushout decision
         if any(len(s) > h["cap"] for s in per_dev.values()) or any(len(p) > 1 for p in places.values()):
             return case
         return None
@@ -376,7 +441,7 @@ class C43(Check):
             h, tasks = parse_case(case)
         except Exception:
             return None
-        skip = outside_contract(h, tasks)
+        skip = outside_contract(h, effective(h, tasks))
         if h["direct"] == 0 and False:
             pass
         if "HANG@" in obs or "CRASH@" in obs:
@@ -418,6 +483,23 @@ class C43(Check):
         for tid, c in enumerate(runs):
             if c != "1":
                 return ("task %d executed %s times" % (tid, c), tid, None, "runs")
+        # a successor on another rank is served from the host copy: after a task, the host copy of every tile it wrote
+        # through a flow with a remote successor holds the value it wrote
+        if h["mode"] == "ptg":
+            segs = obs.split(";")
+            succ = h.get("succ") or []
+            for tid in range(min(len(tasks), len(segs) - 1)):
+                sl = succ[tid] if tid < len(succ) else []
+                for j, (d, mo, _) in enumerate(tasks[tid][1]):
+                    if mo == "r" or d in tainted or j >= len(sl) or not any(r != 0 for r in sl[j]):
+                        continue
+                    mm = re.search(r" %d\[o-?\d+ (\S+)" % d, segs[tid])
+                    host = mm.group(1).split("=")[1] if mm and "=" in mm.group(1) else "?"
+                    if host != str(mems[tid][d]):
+                        return ("after task %d (%s) the host copy of tile %d holds %s, but the flow has a successor on "
+                                "another rank (ranks %s) which must receive %d"
+                                % (tid, task_txt(tasks[tid], sl), d, host, "".join(map(str, sl[j])), mems[tid][d]),
+                                tid, d, "remote")
         data = m.group(2).split()
         for d, v in enumerate(data):
             if d in tainted:
@@ -452,6 +534,8 @@ class C43(Check):
             return "none"
         h, tasks = parse_case(case)
         why, tid, d, kind = v
+        if kind == "remote":
+            return "remote-successor-host-stale"
         if h["mode"] == "ptg":
             # the harness forwards the writer's device copy (no DTD): none of the DTD classes applies
             if d is not None:
